@@ -315,7 +315,7 @@ func (m *M) eval(q *gojq.Query, e *env, in PV, emit func(PV) error) error {
 	}
 	m.depth++
 	defer func() { m.depth-- }()
-	if m.depth > 4000 {
+	if m.depth > 60000 {
 		return &BudgetErr{}
 	}
 	if len(q.FuncDefs) > 0 {
@@ -1335,12 +1335,15 @@ func (m *M) rangeGen(start, end, step any, emit func(any) error) error {
 		return ierr("range bounds must be numeric")
 	}
 	s, en, st := norm(start), norm(end), norm(step)
-	if isInt(s) && isInt(en) && isInt(st) {
-		a, b, c := toBig(s), toBig(en), toBig(st)
+	if f, ok := en.(float64); ok && math.IsNaN(f) {
+		return unsup("range to NaN")
+	}
+	if isInt(s) && isInt(st) {
+		a, c := toBig(s), toBig(st)
 		if c.Sign() == 0 {
 			return unsup("range with zero step (unbounded)")
 		}
-		for x := new(big.Int).Set(a); (c.Sign() > 0 && x.Cmp(b) < 0) || (c.Sign() < 0 && x.Cmp(b) > 0); x = new(big.Int).Add(x, c) {
+		for x := new(big.Int).Set(a); (c.Sign() > 0 && CmpNum(normBig(x), en) < 0) || (c.Sign() < 0 && CmpNum(normBig(x), en) > 0); x = new(big.Int).Add(x, c) {
 			if err := m.step(); err != nil {
 				return err
 			}
